@@ -537,6 +537,9 @@ def shared_run(ctx, checks, nhist, nops, kinds=None, id3_opts=True, corr_policy=
         c07_order(ctx, checks, ctx.rng)
         if not kinds or "ID3" in kinds:
             c07_id3_v1_threshold(ctx, checks)
+    if not kinds:
+        from . import directed
+        directed.run(ctx, checks)
 
 
 C07_V1_WHAT = "C07 ID3: second save with the default policy changes the file (threshold moved by the ID3v1 tag removed by the first save)"
